@@ -283,9 +283,13 @@ func visitInstr(fr *frame, instr ssa.Instruction) continuation {
 		i := fr.i
 		pos := instr.Pos()
 		cur.sched.schedPoint()
-		cur.sched.spawn(func() {
+		parentLib := cur.sched.cur != nil && cur.sched.cur.lib
+		g := cur.sched.spawn(func() {
 			call(i, nil, pos, fn, args)
 		}, shortPos(i, pos))
+		// accesses made on a goroutine the code under test started (callbacks
+		// into the caller's reader, file or writer included) are its accesses
+		g.lib = parentLib || inTargetPkg(fr.fn)
 
 	case *ssa.MakeChan:
 		fr.env[instr] = cur.sched.newChan(int(concInt(fr.get(instr.Size), "chan size")), zero(instr.Type().Underlying().(*types.Chan).Elem()), shortPos(fr.i, instr.Pos()))
@@ -542,8 +546,10 @@ func runFrame(fr *frame) {
 		fr.panicking = true
 		fr.panic = recover()
 		switch fr.panic.(type) {
-		case killedPanic, pathAbort, engineBug:
-			panic(fr.panic) // engine control flow: never visible to the target
+		case killedPanic, pathAbort, engineBug, exitPanic:
+			// engine control flow: never visible to the target (os.Exit runs no
+			// deferred functions)
+			panic(fr.panic)
 		}
 		if fr.i.mode&EnableTracing != 0 {
 			fmt.Fprintf(os.Stderr, "Panicking: %T %v.\n", fr.panic, fr.panic)
